@@ -2,6 +2,7 @@ package harness
 
 import (
 	"fmt"
+	"strings"
 	"testing"
 	"time"
 )
@@ -283,6 +284,91 @@ func famC09(t *testing.T) []netFamily {
 	}
 }
 
+// token sends through the real NFT / MT modules: a send that must fail (token not owned, amount not
+// held, unknown destination) leaves the ledgers, the sequence counter and the commitments untouched
+// and announces nothing; a successful one takes the token and the next sequence together
+func c09Send(h *AppH, o *tokOracle, mod string, i, k int, mclass, id string, amt uint64, d int, receiver, relay string) {
+	real := mclass
+	if strings.HasPrefix(mclass, "tibc-") {
+		real = h.realClass(i, mod, strings.TrimPrefix(mclass, "tibc-"))
+	}
+	dest := "nochainhere"
+	if d >= 0 {
+		dest = h.names[d]
+	}
+	pre := h.Ledger(i)
+	seqBefore := h.chains[i].App.TIBCKeeper.PacketKeeper.GetNextSequenceSend(h.chains[i].GetContext(), h.names[i], dest)
+	owner := h.addr(i, k)
+	held := uint64(0)
+	if mod == "NFT" {
+		for _, tk := range pre.NftTokens {
+			if tk.Class == mclass && tk.ID == id && tk.Owner == owner {
+				held = 1
+			}
+		}
+	} else {
+		for _, b := range pre.MtBal {
+			if b.Class == mclass && b.ID == id && b.Owner == owner {
+				held = b.Amount
+			}
+		}
+	}
+	var ok bool
+	if mod == "NFT" {
+		ok = h.NftSend(i, k, real, id, receiver, dest, relay)
+	} else {
+		ok = h.MtSend(i, k, real, id, receiver, dest, relay, amt)
+	}
+	seqAfter := h.chains[i].App.TIBCKeeper.PacketKeeper.GetNextSequenceSend(h.chains[i].GetContext(), h.names[i], dest)
+	in := map[string]any{"module": mod, "chain": i, "user": k, "class": mclass, "id": id, "amount": amt, "dest": dest, "held": held}
+	if ok && (held < amt || d < 0) {
+		h.Fails = append(h.Fails, OracleFailure{"C09:send-without-token", "a transfer of a token the sender does not hold (or to an unknown chain) was accepted: sequence consumed and packet committed without a matching lock or burn", in})
+	}
+	if !ok && (seqAfter != seqBefore || !sameTokenState(pre, h.Ledger(i))) {
+		h.Fails = append(h.Fails, OracleFailure{"C09:failed-send-left-trace", "a refused transfer changed the sequence counter or the ledgers", in})
+	}
+	if ok && seqAfter != seqBefore+1 {
+		h.Fails = append(h.Fails, OracleFailure{"C09:sequence-gap", "a successful transfer did not consume exactly one sequence", in})
+	}
+	if ok {
+		if f := o.trackSend(i, mod, mclass, id, amt, owner, held); f != nil {
+			o.settle(f)
+		}
+	}
+}
+
+func famC09App() []appFamily {
+	return []appFamily{
+		{"token-sends-all-or-nothing", func(h *AppH, o *tokOracle) {
+			A, B := h.names[0], h.names[1]
+			mintNative(h, o, 0, 1, "kitty", "tom")
+			mintNative(h, o, 1, 2, "doggo", "rex")
+			cls, _ := h.MtIssue(0, 1)
+			id, _ := h.MtMintNew(0, 1, cls, 100, 1)
+			o.mtMinted["0|"+cls+"|"+id] = 100
+			c09Send(h, o, "NFT", 0, 2, "kitty", "tom", 1, 1, h.addr(1, 2), "")  // not the owner
+			c09Send(h, o, "NFT", 0, 1, "kitty", "nosuchid", 1, 1, h.addr(1, 2), "")
+			c09Send(h, o, "NFT", 0, 1, "kitty", "tom", 1, -1, h.addr(1, 2), "") // unknown destination
+			c09Send(h, o, "NFT", 0, 1, "kitty", "tom", 1, 1, h.addr(1, 2), "")  // good: sequence 1
+			c09Send(h, o, "MT", 0, 2, cls, id, 5, 1, h.addr(1, 2), "")         // holds nothing
+			c09Send(h, o, "MT", 0, 1, cls, id, 101, 1, h.addr(1, 2), "")       // more than held
+			c09Send(h, o, "MT", 0, 1, cls, id, 60, 1, h.addr(1, 2), "")        // good: sequence 2
+			c09Send(h, o, "NFT", 0, 1, "kitty", "tom", 1, 1, h.addr(1, 2), "")  // already gone (in escrow)
+			v := vclass("NFT", "kitty", A, B)
+			c09Send(h, o, "NFT", 1, 1, v, "tom", 1, 0, h.addr(0, 1), "") // voucher, not the holder: back towards the origin
+			c09Send(h, o, "NFT", 1, 3, v, "tom", 1, 0, h.addr(0, 3), "")
+			c09Send(h, o, "NFT", 1, 2, "doggo", "rex", 1, 0, h.addr(0, 2), "") // B's own native: sequence 1 of (B,A)
+			vm := vclass("MT", cls, A, B)
+			c09Send(h, o, "MT", 1, 1, vm, id, 1, 0, h.addr(0, 1), "")  // voucher units, not a holder
+			c09Send(h, o, "MT", 1, 2, vm, id, 61, 0, h.addr(0, 1), "") // one more than held
+			c09Send(h, o, "NFT", 1, 2, v, "tom", 1, 0, h.addr(0, 1), "") // the holder: sequence 2 of (B,A)
+			c09Send(h, o, "MT", 1, 2, vm, id, 60, 0, h.addr(0, 1), "")   // sequence 3 of (B,A)
+		}},
+	}
+}
+
+func init() { netPropAppFams["C09"] = famC09App }
+
 func TestC09(t *testing.T) {
 	runNetProperty(t, "C09", []string{"C09:"}, famC09(t), tierN(24, 400),
 		genCfg{Chains: 3, Ops: 40, Perturb: 15, Clean: true, Rules: false},
@@ -431,8 +517,28 @@ func famC11(t *testing.T) []netFamily {
 		h.hopRecv(1, 0, p)
 		h.hopRecv(2, 1, p)
 	}}
+	rolledBack := netFamily{"rule-changes-that-are-rolled-back", func(h *NetH) {
+		// a rule change that succeeds in a discarded branch of the state (failed proposal / failed
+		// transaction) must not influence what the relay chain does
+		A, B, C := h.names[0], h.names[1], h.names[2]
+		h.SetRules(1, []string{C + "," + A + ",*"}) // only C -> A
+		h.SetRulesDiscarded(1, []string{"*,*,*"})
+		p1 := h.sendOK(0, Pkt{1, A, C, B, "tibcmock", "~still-refused"})
+		h.hopRecv(1, 0, p1) // refused: error acknowledgement, no commitment
+		h.hopRecv(2, 1, p1)
+		h.hopAck(0, 1, p1, unauthAck)
+		h.SetRules(1, []string{"*,*,*"})
+		h.SetRulesDiscarded(1, []string{})
+		h.SetRulesDiscarded(1, []string{A + ",nowhere99,*"})
+		p2 := h.sendOK(0, Pkt{2, A, C, B, "tibcmock", "~still-allowed"})
+		h.hopRecv(1, 0, p2) // forwarded
+		h.hopRecv(2, 1, p2)
+		h.hopAck(1, 2, p2, mockAck)
+		h.hopAck(0, 1, p2, mockAck)
+	}}
 	return []netFamily{
 		refusedThenAllowed,
+		rolledBack,
 		mk("allowed-exact", []string{A + "," + C + ",tibcmock"}, "tibcmock", true),
 		mk("allowed-wildcards", []string{"*,*,*"}, "tibcmock", true),
 		mk("refused-no-rules", nil, "tibcmock", true),
